@@ -872,6 +872,8 @@ func c14Run(c *Ctx) {
 	}
 	// deterministic streams: runs of equal consecutive records in every format (c14_runs.go)
 	c14RunStreams(emit)
+	// end-to-end layer: the same documents through driver.PProf, interactive sessions and the web handlers (c14_e2e.go)
+	c14RunE2E(c)
 	n := c.Budget(120, 1500)
 	for k := 0; k < n; k++ {
 		// Go count
@@ -880,6 +882,9 @@ func c14Run(c *Ctx) {
 			data := []byte(c14JoinLines(d.lines()))
 			nt := len(d.items) > 0
 			emit("count-doc", "doc", "count", d.term(), data, nil, false, nt)
+			if k%3 == 0 {
+				c14E2ERandom(c, "count", d.term(), data, false)
+			}
 			switch c.R.Intn(3) {
 			case 0:
 				emit("count-var", "var", "count", d.term(), crlf(string(data)), nil, false, nt, "var:crlf")
@@ -896,6 +901,9 @@ func c14Run(c *Ctx) {
 			data := []byte(c14JoinLines(d.lines(0)))
 			nt := len(d.items) > 0
 			emit("heap-doc", "doc", "heap", d.term(), data, d.oracle, d.approx, nt, "heap:"+d.name)
+			if k%3 == 1 {
+				c14E2ERandom(c, "heap", d.term(), data, d.approx)
+			}
 			st := 1 + c.R.Intn(2)
 			emit("heap-var", "var", "heap", d.term(), []byte(c14JoinLines(d.lines(st))), d.oracle, d.approx, nt, fmt.Sprintf("var:style%d", st))
 			if c.R.P(1, 3) {
@@ -911,6 +919,9 @@ func c14Run(c *Ctx) {
 			data := []byte(c14JoinLines(d.lines(0)))
 			nt := len(d.items) > 0
 			emit("contention-doc", "doc", "contention", d.term(), data, nil, d.approx, nt)
+			if k%3 == 2 {
+				c14E2ERandom(c, "contention", d.term(), data, d.approx)
+			}
 			if c.R.P(1, 2) {
 				emit("contention-var", "var", "contention", d.term(), []byte(c14JoinLines(d.lines(1))), nil, d.approx, nt, "var:style1")
 			}
